@@ -400,6 +400,9 @@ def derive(repo):
     inner = None
     if len(b) == 1 and isinstance(b[0], ast.If) and _src(b[0].test) == "isinstance(%s, Mesh)" % marg:
         inner = b[0].body
+    elif b and isinstance(b[0], ast.If) and _src(b[0].test) == "not isinstance(%s, Mesh)" % marg and len(b[0].body) == 1 \
+            and isinstance(b[0].body[0], ast.Return) and not b[0].orelse and not any(isinstance(s, ast.If) for s in b[1:]):
+        inner = b[1:]   # early-return form of the same guard
     elif not any(isinstance(s, ast.If) for s in b):
         inner = b
     if inner is None:
